@@ -98,14 +98,14 @@ Lemma build_spec : forall f d items,
 Proof.
   induction f as [|f IH]; intros d items Hd Hf Hs Hb.
   - destruct items as [|x tl].
-    + exists []. cbn. repeat split; try lia; try (intros; congruence).
-      * apply Z.pow_nonneg; lia.
-      * intros a l s b tail E. destruct a; discriminate.
+    + exists []. cbn [build fst snd app sumw]. split; [reflexivity|].
+      split; [apply Z.pow_nonneg; lia|]. split; [intros H; congruence|].
+      intros a l s b tail E. destruct a; discriminate.
     + inversion Hb; subst. lia.
   - destruct items as [|[len sym] tl].
-    + exists []. cbn. repeat split; try (intros; congruence).
-      * apply Z.pow_nonneg; lia.
-      * intros a l s b tail E. destruct a; discriminate.
+    + exists []. cbn [build fst snd app sumw]. split; [reflexivity|].
+      split; [apply Z.pow_nonneg; lia|]. split; [intros H; congruence|].
+      intros a l s b tail E. destruct a; discriminate.
     + cbn [build]. assert (Hlen : d <= len <= 15) by (inversion Hb; subst; assumption).
       destruct (len <=? d) eqn:E.
       * (* leaf *)
@@ -177,7 +177,10 @@ Proof.
         -- (* a = pre1 ++ m, pre2 = m ++ (l,s)::b *)
            subst a. assert (Hne : r1 <> []) by (rewrite Hi2, E4; destruct m; cbn; congruence).
            rewrite sumw_app, (Hfull1 Hne), Hcap.
-           rewrite Z.add_comm, Z.div_add by lia.
+           assert (Ediv : (2 ^ Z.of_nat (Z.to_nat (l - (d + 1))) * wt l + sumw m) / wt l
+                          = 2 ^ Z.of_nat (Z.to_nat (l - (d + 1))) + sumw m / wt l).
+           { rewrite (Z.add_comm (_ * _)), Z.div_add by lia. lia. }
+           rewrite Ediv.
            assert (Hm0 : 0 <= sumw m).
            { apply sumw_nonneg. rewrite E4 in Hall. apply Forall_app in Hall. destruct Hall as [_ Hall].
              apply Forall_app in Hall. destruct Hall as [Hm _]. eapply Forall_impl; [|exact Hm]. cbn. intros; lia. }
@@ -188,7 +191,7 @@ Proof.
                apply Forall_app in Hall. destruct Hall as [_ Hall]. inversion Hall as [|? ? _ Hb']; subst.
                eapply Forall_impl; [|exact Hb']. cbn. intros; lia. }
              lia. }
-           rewrite Z.add_comm, msb_high.
+           rewrite msb_high.
            ++ cbn [app read_symbol]. apply (Hdec2 m l s b tail E4).
            ++ split; [apply Z.div_pos; lia|]. apply Z.div_lt_upper_bound; [lia|]. rewrite Z.mul_comm, <- Hcap. lia.
 Qed.
